@@ -48,6 +48,8 @@ def layout_dims(api, lay):
     if lay['cont']:
         dims.add('continuation')
     dims.add('def_order')
+    if lay.get('nested'):
+        dims.add('nested_definitions')
     return dims
 
 
